@@ -43,7 +43,13 @@ def run_concrete(f, env):
         CONCRETE = None
 
 
-def spec(topic, name, params, outnames=None, doc=""):
+COLLAPSE = set()     # definitions whose decision tree is emitted with `if c then X else X` collapsed to X
+
+
+def spec(topic, name, params, outnames=None, doc="", collapse=False):
+    if collapse:
+        COLLAPSE.add(name)
+
     def deco(f):
         TOPICS.setdefault(topic, []).append((name, params, f, outnames, doc))
         return f
@@ -268,6 +274,68 @@ spec("Roots", "cubic_dcoeffs", pp("p0", "p1", "p2", "p3"), ["ax", "bx", "cx", "a
 spec("Roots", "quad_findDRoots", pp("p0", "p1", "p2"), None, "QuadraticBezier._findDRoots (= findExtremes)")(lambda: list(quad()._findDRoots()))
 spec("Roots", "quad_rootcoeffs_y", pp("p0", "p1", "p2"), ["a", "b", "c"],
      "arguments QuadraticBezier._findRoots('y') passes to quadraticRoots")(lambda: _capture_qr(qbm, lambda: quad()._findRoots("y")))
+spec("Roots", "quadraticRoots_unlimited", ["a", "b", "c"], None, "utils.quadraticRoots(a, b, c, limited=False)")(
+    lambda: list(bu.quadraticRoots(V("a"), V("b"), V("c"), limited=False)))
+
+
+class _Stop(Exception):
+    pass
+
+
+def _cubic_rootcoeffs():
+    """the power-basis coefficients CubicBezier._findRoots('y') computes: the arguments of its first four abs() calls (d, a, b, c)"""
+    got = []
+
+    def rec_abs(x):
+        got.append(x)
+        if len(got) == 4:
+            raise _Stop()
+        return abs(x)
+    cbm.abs = rec_abs
+    try:
+        cub()._findRoots("y")
+    except _Stop:
+        pass
+    finally:
+        del cbm.abs
+    d, a, b, c = got
+    return [a, b, c, d]
+
+
+def _cubic_pre(mode):
+    """Run CubicBezier._findRoots('y') with quadraticRoots / _polishRoots replaced by recorders.
+    mode 'dispatch': [0] = exact quadratic (d == 0), [1] = negligible d (polished quadratic roots), [2] = Cardano;
+    mode 'cardano': the closed-form roots handed to _polishRoots ([] in the quadratic fallbacks)."""
+    out = []
+    oq, op = cbm.quadraticRoots, cbm._polishRoots
+
+    def rq(a, b, c, limited=True):
+        out.append(("q", limited))
+        return []
+
+    def rp(roots, a, b, c, d):
+        out.append(("p", list(roots)))
+        return []
+    cbm.quadraticRoots, cbm._polishRoots = rq, rp
+    try:
+        cub()._findRoots("y")
+    finally:
+        cbm.quadraticRoots, cbm._polishRoots = oq, op
+    kinds = [k for k, _ in out]
+    if kinds == ["q"]:
+        return [0] if mode == "dispatch" else []
+    if kinds == ["q", "p"]:
+        return [1] if mode == "dispatch" else []
+    assert kinds == ["p"], kinds
+    return [2] if mode == "dispatch" else list(out[0][1])
+
+
+spec("Roots", "cubic_rootcoeffs_y", pp("p0", "p1", "p2", "p3"), ["a", "b", "c", "d"],
+     "coefficients a t^2 + b t + c + d t^3 that CubicBezier._findRoots('y') extracts")(_cubic_rootcoeffs)
+spec("Roots", "cubic_findRoots_dispatch", pp("p0", "p1", "p2", "p3"), "list",
+     "which solver CubicBezier._findRoots('y') uses: [0] exact quadratic, [1] polished quadratic (negligible d), [2] Cardano", collapse=True)(lambda: _cubic_pre("dispatch"))
+spec("Roots", "cubic_cardano_roots", pp("p0", "p1", "p2", "p3"), "list",
+     "the closed-form roots CubicBezier._findRoots('y') hands to _polishRoots ([] in the quadratic fallbacks)", collapse=True)(lambda: _cubic_pre("cardano"))
 spec("Roots", "quad_tOfPoint_coeffs", pp("p0", "p1", "p2", "q"), ["ax", "bx", "cx", "ay", "by", "cy"],
      "arguments QuadraticBezier.tOfPoint passes to quadraticRoots (x then y)")(lambda: _capture_qr(qbm, lambda: quad().tOfPoint(P("q"))))
 
@@ -370,3 +438,44 @@ def _line_tofpoint():
 
 
 spec("Lookup", "line_tOfPoint", pp("p0", "p1", "q"), None, "Line.tOfPoint(point) (its_on_the_line_i_swear=False)")(_line_tofpoint)
+
+
+def _line_tofpoint_sworn():
+    return [lin().tOfPoint(P("q"), its_on_the_line_i_swear=True)]
+
+
+spec("Lookup", "line_tOfPoint_sworn", pp("p0", "p1", "q"), None, "Line.tOfPoint(point, its_on_the_line_i_swear=True)")(_line_tofpoint_sworn)
+
+# =============================================================================== Inter (C05, C11)
+
+
+def _with_opaque_tOfPoint(f):
+    """While tracing, calls of Line.tOfPoint become calls of the generated definitions line_tOfPoint /
+    line_tOfPoint_sworn (compositional tracing); concretely the real method runs."""
+    def g():
+        if CONCRETE is not None:
+            return f()
+        orig = Line.tOfPoint
+
+        def shim(self, point, its_on_the_line_i_swear=False):
+            name = "line_tOfPoint_sworn" if its_on_the_line_i_swear else "line_tOfPoint"
+            return tracer.app(name, self[0].x, self[0].y, self[1].x, self[1].y, point.x, point.y)
+        Line.tOfPoint = shim
+        try:
+            return f()
+        finally:
+            Line.tOfPoint = orig
+    return g
+
+
+def _line_line():
+    res = lin("p0", "p1").intersections(lin("q0", "q1"))
+    out = []
+    for i in res:
+        out += [i.t1, i.t2]
+    return out
+
+
+spec("Inter", "line_line", pp("p0", "p1", "q0", "q1"), None,
+     "Line.intersections(Line): [t1, t2] of the reported intersection or [] (IntersectionsMixin.intersections + _line_line_intersections; "
+     "tOfPoint calls are calls of the generated line_tOfPoint definitions)")(_with_opaque_tOfPoint(_line_line))
